@@ -316,18 +316,21 @@ def get_npm_version_constraints_from_semver_npm_spec(string, cls):
     """
     Return a VersionConstraint for the provided ``string``.
     """
-    spec = semantic_version.NpmSpec(string)
+    try:
+        spec = semantic_version.NpmSpec(string)
+    except AttributeError as e:
+        # NpmSpec fails this way on a malformed hyphen range
+        raise ValueError(f"Invalid npm range: {string!r}") from e
     clause = spec.clause.simplify()
-    if isinstance(clause, (AnyOf, AllOf)):
-        anyof_constraints = []
-        if isinstance(clause, AnyOf):
-            for allof_clause in clause.clauses:
-                anyof_constraints.extend(get_allof_constraints(cls, allof_clause))
-        elif isinstance(clause, AllOf):
-            alloc = get_allof_constraints(cls, clause)
-            anyof_constraints.extend(alloc)
-        else:
-            raise ValueError(f"Unknown clause type: {spec!r}")
+    anyof_constraints = []
+    if isinstance(clause, AnyOf):
+        for allof_clause in clause.clauses:
+            anyof_constraints.extend(get_allof_constraints(cls, allof_clause))
+    elif isinstance(clause, AllOf):
+        alloc = get_allof_constraints(cls, clause)
+        anyof_constraints.extend(alloc)
+    else:
+        raise ValueError(f"Unsupported npm range: {string!r}")
     return anyof_constraints
 
 
